@@ -95,7 +95,8 @@ pub fn draw_seektable(ch: &Choices) -> SeekTable {
 
 /// cue sheet text for a CD-DA style disc of `total` samples (a multiple of 588)
 pub fn draw_cue_text(ch: &Choices, total: u64) -> String {
-    let tracks = 1 + ch.draw("meta.cue.tracks", 4);
+    // mostly small discs, sometimes at the format's limits (99 tracks for CD-DA)
+    let tracks = *ch.pick("meta.cue.tracks", &[1u64, 2, 3, 4, 2, 3, 98, 99, 50]);
     let mut t = String::new();
     if ch.draw("meta.cue.cat", 2) == 1 {
         t.push_str("CATALOG 1234567890123\n");
@@ -118,7 +119,8 @@ pub fn draw_cue_text(ch: &Choices, total: u64) -> String {
             t.push_str(&format!("    INDEX 00 {}\n", msf(pos)));
             pos += 1;
         }
-        let extra = ch.draw("meta.cue.idx", 3);
+        // index points per track: mostly a few, sometimes up to the limit of 99 (numbers 01..99)
+        let extra = if tracks <= 4 { *ch.pick("meta.cue.idx", &[0u64, 1, 2, 97, 98]) } else { ch.draw("meta.cue.idx", 2) };
         for _ in 0..=extra {
             t.push_str(&format!("    INDEX {:02} {}\n", idx, msf(pos)));
             idx += 1;
@@ -136,7 +138,7 @@ fn msf(sector: u64) -> String {
 }
 
 pub fn draw_cuesheet(ch: &Choices) -> Option<Cuesheet> {
-    let total = 588 * (20 + ch.draw("meta.cue.len", 2000));
+    let total = 588 * (600 + ch.draw("meta.cue.len", 4000));
     let text = draw_cue_text(ch, total);
     Cuesheet::parse(total, &text).ok()
 }
